@@ -77,13 +77,13 @@ EXTRA = {  # rules added after seeded changes were missed (DESIGN.md §11/§12);
  "C11": ("multi-step abstract interpretation of Add/Remove histories with a list model per path and order facts over terms (A-comp)", "for 15 (thorough 22) histories of up to 6 operations over points with unknown coordinates in a tree with an unknown bound: Remove answers true exactly for a stored pointer, InBound over the tree's bound returns exactly the pointers added and not removed, InBound over an unknown box returns exactly the stored pointers the path's comparisons place inside it (A-comp; two different inputs are taken to be different points)"),
  "C04": ("trim-before-test sibling rule over SSA (T4b)", "every typed wkt.Unmarshal* hands only trimmed text to the keyword test and the parser (T4b)"),
  "C12": ("area-flag sibling table (T12), compaction-index lint (H7), abstract interpretation of the three simplifiers with the distance/area measures uninterpreted (A-comp)", "rings are simplified with area=true and lines with area=false (T12); kept rings/polygons are stored at the write counter (H7); for lines and rings of up to 5 (thorough 6) unknown vertices, open and closed: the result is a subsequence of the input keeping the first and last vertex, radial neighbours were measured farther apart than the threshold, Visvalingam never returns fewer than the minimum count and keep-N exactly N (A-comp)"),
- "C14": ("range-grow lint (L5)", "no loop appends to the slice it ranges over (L5)"),
+ "C14": ("range-grow lint (L5), dispatch-delegation check over SSA (K6)", "no loop appends to the slice it ranges over (L5); tilecover.Geometry hands a value of kind K to tilecover.K and to no other kind's function (K6)"),
  "C15": ("plural-method delegation (D4b)", "Layers.ProjectTo* call the per-layer method, the projected bound is the box of the two corners (H3)"),
  "C16": ("endpoint-order table (T8b), compaction-index lint (H7)", "sortableEndpoints.Less orders each side along its varying axis counter-clockwise with an identical tie-break (T8b)"),
  "C17": ("interval enumeration with postcondition (A-post), abstract interpretation of Resample with the distance function uninterpreted and results as rational functions (A-comp)", "a non-positive interval returns nil (A-post); for lines of 2..3 (thorough 4) unknown vertices and N = 1..4 (6): N points, first and last vertex kept, the k-th point is the point of the ORIGINAL line at k/(N-1) of its length as a rational function of coordinates and segment lengths (segment lengths taken positive) (A-comp)"),
  "C18": ("bound-as-polygon check (K5), composition with ringArea/distance uninterpreted and results as rational functions of the parts (A-comp)", "every generic measure handles a Bound through ToRing()/ToPolygon() (K5); polygon area = |outer| - sum |hole|, multi-polygon and collection area = sum over members, geodesic length = the distance function summed over every segment once, as rational functions of the uninterpreted parts (A-comp)"),
  "C10": ("composition with the parts' formulas uninterpreted and results as rational functions of the parts (A-comp)", "polygon area = |outer| - sum |hole| with the matching area-weighted centroid, multi-polygon/collection area = sum over (top-dimensional) members with the area-weighted centroid, length = distance summed over every segment once, distance-from = a measured segment/point distance that the path's comparisons establish as the smallest, every segment measured once (A-comp)"),
- "C20": ("bound-as-polygon (K5), compaction-index (H7), make-then-append (L4), range-grow (L5) lints", "Bound arms of measures/encoders delegate to the polygon form (K5)"),
+ "C20": ("bound-as-polygon (K5), dispatch-delegation (K6), compaction-index (H7), make-then-append (L4), range-grow (L5) lints", "the generic Geometry functions of clip, smartclip, project and tilecover hand kind K to the package's function K (K6); Bound arms of measures/encoders delegate to the polygon form (K5)"),
 }
 
 NOT_APPLICABLE = [
